@@ -61,13 +61,14 @@ def run_case(case):
     # free-form fields an experimenter or the acquisition software may leave in the header: they travel through the split and back unchanged
     notes = {"userNotes": str(rng.choice(["", "mouse A12; depth 3.5,4.1 mm", "0.40,0.10,0.02", "0.5,2", "1,2.25,3", "gain=500 ref=ext", "see D:/notes/2024-05-01.txt", "12,13,14"])),
              "rmt_USERTAG": str(rng.choice(["", "a=b=c", "7", "7.50", "1e-3"]))}
-    b, rec = np2.build(rng, d, ns=ns, gain=gain, sites=sites, content=content, encoding=enc, extra_meta=notes)
+    fs_hdr = float(rng.choice([30000.0, 30000.0, 30000.390639481, 29999.757983, 30000.75]))      # headers carry the probe's calibrated rate
+    b, rec = np2.build(rng, d, ns=ns, gain=gain, sites=sites, content=content, encoding=enc, extra_meta=notes, fs=fs_hdr)
     raw = rec.raw
     second = str(rng.choice(["", "", "overwrite", "init+overwrite"])) if not case.get("long") else ""
     # the original as it may arrive: duration written with a few decimals only, and / or already compressed
     tsec = np2.round_duration(b.with_suffix(".meta"), ns, rec.fs, rng) if rng.random() < 0.5 else None
     orig_cbin = (not case.get("long")) and rng.random() < 0.3
-    label = (f"gain={gain[0]}/{gain[1]} mode={mode} shanks={sorted(set(sites[:, 0].tolist()))} window={window} ns={ns} {content} "
+    label = (f"gain={gain[0]}/{gain[1]} imSampRate={fs_hdr} mode={mode} shanks={sorted(set(sites[:, 0].tolist()))} window={window} ns={ns} {content} "
              f"post_check={post_check} compress={compress} enc={enc}" + (f" second-pass={second}" if second else "")
              + (f" fileTimeSecs={tsec}" if tsec else "") + (" original=cbin" if orig_cbin else ""))
     if tsec:
